@@ -34,7 +34,7 @@ pub fn compare_tree(src: &str, expected: &Ast) -> Result<(), (String, String)> {
         Ok(Err(e)) => Err((format!("well-formed input rejected ({})", adapt::err_variant(&e)), format!("Err({:?})", e))),
         Ok(Ok(tree)) => {
             let got = normalise(&tree);
-            if got.same(expected) {
+            if expected.matches_tree(&got) {
                 Ok(())
             } else {
                 Err(("different tree".into(), got.sexp()))
